@@ -26,7 +26,8 @@ def keyed_leg(ctx, fedjax, cases):
   import jax  # pylint: disable=g-import-not-at-top
   rng = ctx.rng
   R = island.R
-  picked = [c for c in cases if max(len(s) for s in c['inst']['stream']) >= 2][: (16 if ctx.thorough else 6)]
+  picked = [c for c in cases if max(len(s) for s in c['inst']['stream']) >= 2]
+  picked = ([c for c in picked if c['pool_a']][: (8 if ctx.thorough else 3)] + [c for c in picked if not c['pool_a']][: (8 if ctx.thorough else 3)])
   variants = []
   for ci, c in enumerate(picked):
     inst = c['inst']
@@ -50,7 +51,11 @@ def keyed_leg(ctx, fedjax, cases):
     mu = rng.choice([0.25, 0.5])
     # (HypCluster derives separate selection and training keys from the client's key by design, MimeLite and APFL have
     # their own client loops: with a key-using loss they equal FedAvg in distribution only, which is not demanded here)
-    for name, oinst, kw in (('fed_prox', kinst, {'mu': 0.0}), ('fed_prox', dict(kinst, mu=R(mu)), {'mu': mu})):
+    trio = [('fed_prox', kinst, {'mu': 0.0}), ('fed_prox', dict(kinst, mu=R(mu)), {'mu': mu})]
+    if not c['pool_a']:
+      # MimeLite with plain SGD and server rate 1 runs the same client loop as FedAvg: also with a key-using loss
+      trio.append(('mime_lite', dict(kinst, sopt=island.opt_spec('sgd', 1)), {'server_lr': 1.0}))
+    for name, oinst, kw in trio:
       if island.within_island(oinst):
         variants.append((c, seed, name, oinst, kw))
   if not variants:
@@ -145,8 +150,11 @@ def run(ctx):
       variants.append((c, 'hyp_cluster', rbase, {'clusters': 1, 'reg': lam}, 'rounds'))
       if not c['pool_a']:
         variants.append((c, 'mime_lite', dict(rbase, sopt=island.opt_spec('sgd', 1)), {'server_lr': 1.0, 'reg': lam}, 'rounds'))
-  for c in mime_cases:
+  for mi, c in enumerate(mime_cases):
     variants.append((c, 'mime', dict(c['inst']), {'server_lr': float(island.frac(c['inst']['mime_slr']))}, 'mime'))
+    if mi % 2 == 0:     # with an L2 regulariser: it enters the full-batch step exactly once
+      lam_m = rng.choice([0.25, 0.5])
+      variants.append((c, 'mime', dict(c['inst'], reg=R(lam_m)), {'server_lr': float(island.frac(c['inst']['mime_slr'])), 'reg': lam_m}, 'mime'))
   # a fixed instance with a round without any example under a stateful server optimizer (see known_findings.json)
   fx = {'data': [[], [[2]]], 'init': [R(-2)], 'copt': island.opt_spec('sgd', 1), 'sopt': island.opt_spec('mom', 0.5, 0.5), 'mu': R(0), 'rounds': 3,
         'cohorts': [[2, 1], [1], [1, 2]]}
